@@ -14,9 +14,20 @@ def keyCutShort : B :=
   [0, 0, 0, 16, 0, 0, 0, 0, 0, 0, 0, 0, 110, 117, 108, 108, 0, 0, 0, 1, 0, 0, 0, 0, 97, 98, 99, 100, 101, 110, 117, 109,
    0, 0, 0, 0, 101, 102, 103, 104, 0, 0, 0, 0, 97, 98]
 
-/-- a decoded block seen through its canonical bytes (written without filler), its cursor, and whether its keys are full -/
-def blockView (r : Except Err (Descriptor.Block × Nat)) : Except Err (B × Nat × Bool) :=
-  r.map (fun x => (x.1.encT Descriptor.realTables 1, x.2, decide x.1.KeysFull))
+/-- a decoded block seen through its canonical bytes (written without filler) and its cursor -/
+def blockView (r : Except Err (Descriptor.Block × Nat)) : Except Err (B × Nat) :=
+  r.map (fun x => (x.1.encT Descriptor.realTables 1, x.2))
+
+/-- the reader of `read_length_and_key` as it was BEFORE repo commit 3c59c32 (a lenient `fp.read(length or 4)`: what is there) -/
+def readKeyLenient (terms : List UInt8 → Bool) (d : List UInt8) (pos : Nat) : Except Err (Descriptor.Key × Nat) :=
+  match Globals.readU32 d pos with
+  | .error e => .error e
+  | .ok (len, p) =>
+    let n := if len = 0 then 4 else len
+    let kb := (d.drop p).take n
+    let p' := p + kb.length
+    if len = 0 ∧ ¬ terms kb then .ok ({ bytes := kb, implicit := true }, p')
+    else .ok ({ bytes := kb, implicit := false }, p')
 
 /-- the `struct` items of the flat models (Model/Payload3*.lean), class by class, in the order of the source: a `rec fmt` is
 its format, a `counted w` contributes the count field. `C02.model_formats_are_the_source_pairs`: for every class here BOTH
